@@ -132,7 +132,12 @@ def unaccounted_braces(s, nl):
                 ok.update(range(n.pos_end - len(d[1]), n.pos_end))
         if k == 'environment':
             if n.environmentname in VERBATIM_ENVIRONMENTS:
-                spans.append((n.pos, n.pos_end))
+                # verbatim up to and including the last \end{name} inside the node's span (what a
+                # node claims beyond that is not verbatim text)
+                import re as _re
+                ends = [m.end() for m in _re.finditer(r'\\end\s*\{' + _re.escape(n.environmentname)
+                                                      + r'\}', s[n.pos:n.pos_end])]
+                spans.append((n.pos, n.pos + ends[-1] if ends else n.pos_end))
             envs.append(n)
         argd = getattr(n, 'nodeargd', None)
         if argd is not None:
